@@ -29,6 +29,12 @@ try:
         if ok:
             bad += 1
             print(detail)
+    for gname, gen in replay_more.GENERATORS.items():
+        ok, detail, ran = replay_more.replay_generated(root, gen([]))
+        print(gname, "generated battery:", ran, "runs; mismatches:", ok)
+        if ok or ok is None:
+            bad += 1
+            print(detail)
 finally:
     scratch.cleanup(root)
 print("bad", bad)
